@@ -52,6 +52,9 @@ enum Harm {
     RootKeySwap,
     /// NODATA for existing data, "proven" by the re-owned NSEC of a wildcard.
     WildcardNsecReplay,
+    /// The RRSIGs of one answer RRset replaced by a correct signature of a
+    /// securely delegated zone that is no ancestor of the owner.
+    ForeignSigner,
     /// NODATA / NXDOMAIN for data that exists, built from the name's own
     /// NSEC/NSEC3, or from the parent side of the delegation (u8: mode).
     DenyExisting(u8),
@@ -138,6 +141,26 @@ fn harm(r: &mut Resp, h: Harm, world: &World) -> bool {
     let is_sig = |rec: &super::dnssec_world::SRec| rec.rtype() == Rtype::RRSIG;
     match h {
         Harm::None | Harm::TransportError | Harm::Nxdomain | Harm::ForgedNxdomainBelowCut | Harm::WildcardReplay | Harm::ForgeDnameCname | Harm::RootKeySwap | Harm::WildcardNsecReplay | Harm::DenyExisting(_) => false,
+        Harm::ForeignSigner => {
+            // One signed RRset of the answer section.
+            let covered: Vec<(String, Rtype)> = r
+                .answer
+                .iter()
+                .filter_map(|rec| match rec.data() {
+                    D::Rrsig(s) => Some((lname(rec.owner()), s.type_covered())),
+                    _ => None,
+                })
+                .filter(|k| world.foreign_sigs.contains_key(k))
+                .collect();
+            if covered.is_empty() {
+                return false;
+            }
+            let (o, t) = covered[sim::draw("harm.which_sig", covered.len() as u64) as usize].clone();
+            r.answer.retain(|rec| !matches!(rec.data(), D::Rrsig(s) if s.type_covered() == t && lname(rec.owner()) == o));
+            r.answer.push(world.foreign_sigs[&(o, t)].clone());
+            sim::stat("fault.rrsig_by_a_secure_zone_that_is_no_ancestor");
+            true
+        }
         Harm::DropRrsig => {
             // Drop every RRSIG of one signed RRset.
             let sec_is_answer = !r.answer.is_empty() && r.answer.iter().any(is_sig);
@@ -466,7 +489,18 @@ async fn run(_tier: Tier) {
     // of the signatures' validity (RFC 4035 5.3.1: inception <= now <=
     // expiration): the last invalid second, the first valid one, the last
     // valid one, the first invalid one.
-    let clock_plan = if adversarial { sim::draw("clock.plan", 13) } else { 0 };
+    // Plans 13 and 14 do the same at the expiration of the one signature that
+    // ends early (zone.tld's DS RRset); plan 15 lets that moment pass between
+    // the first and the second validation (warm caches, real passing of time).
+    let clock_plan = if adversarial { sim::draw("clock.plan", 16) } else { 0 };
+    // The last second at which the chain to `name` is valid.
+    let eff_expiration = |name: &str| -> u64 {
+        if name.to_ascii_lowercase().ends_with("zone.tld.") {
+            w.ds_expiration.min(w.expiration) as u64
+        } else {
+            w.expiration as u64
+        }
+    };
     let base_off = match clock_plan {
         5 => 40 * day,  // all signatures expired
         6 => -3 * day,  // not yet valid
@@ -523,6 +557,7 @@ async fn run(_tier: Tier) {
                     Harm::ForgeDnameCname,
                     Harm::RootKeySwap,
                     Harm::WildcardNsecReplay,
+                    Harm::ForeignSigner,
                     Harm::DenyExisting(0),
                     Harm::DenyExisting(1),
                     Harm::DenyExisting(2),
@@ -618,12 +653,20 @@ async fn run(_tier: Tier) {
         let req_msg = qb.into_message();
         let bytes = to_message(&req_msg, &r);
         let mut msg = Message::from_octets(bytes).expect("message");
-        if (9..=12).contains(&clock_plan) {
+        if clock_plan == 15 && qi == 1 {
+            sim::stat("fault.ds_signature_expires_between_validations");
+            ev!("five seconds pass: the RRSIG over zone.tld's DS RRset expires");
+            sim::sleep_ms(5000).await;
+        }
+        if (9..=14).contains(&clock_plan) || (clock_plan == 15 && qi == 0) {
             let target: i128 = match clock_plan {
                 9 => w.inception as i128 - 1,
                 10 => w.inception as i128,
                 11 => w.expiration as i128,
-                _ => w.expiration as i128 + 1,
+                12 => w.expiration as i128 + 1,
+                13 => w.ds_expiration as i128,
+                14 => w.ds_expiration as i128 + 1,
+                _ => w.ds_expiration as i128 - 2,
             };
             // 0.2 s into that second, so that the whole validation (a few
             // upstream latencies) stays inside it.
@@ -632,7 +675,7 @@ async fn run(_tier: Tier) {
             sim::stat("fault.clock_at_validity_boundary");
         }
         let wall = sim::wall_secs();
-        let in_window = wall >= w.inception as u64 && wall <= w.expiration as u64;
+        let in_window = wall >= w.inception as u64 && wall <= eff_expiration(qname);
         ev!("validate #{} {} {} ({}) final_harm={:?} applied={} infra_harm={:?} wall-epoch={}d", qi, qname, qtype, class, final_harm, final_harmed, infra_harm, (wall as i64 - sim::EPOCH_BASE as i64) / 86_400);
         // (DO, AD, CD) of the caller's request when going through the wrapper.
         let caller_flags = if via_wrapper {
@@ -733,6 +776,7 @@ async fn run(_tier: Tier) {
             };
             ev!("  companion {} {} -> {}", cq, ct, cstate);
             let csecure = matches!(cres, Ok((ValidationState::Secure, _)));
+            let in_window = wall >= w.inception as u64 && wall <= eff_expiration(cq);
             if csecure && !in_window {
                 sim::violation(P, "soundness", "secure-outside-signature-validity/concurrent".to_string(), format!("{} {} ({}) validated concurrently: Secure outside the signatures' validity window", cq, ct, cc));
                 return;
@@ -788,8 +832,8 @@ async fn run(_tier: Tier) {
             sim::violation(
                 P,
                 "soundness",
-                format!("secure-outside-signature-validity/{}", if wall > w.expiration as u64 { "expired" } else { "not-yet-valid" }),
-                format!("{} {} ({}): Secure although the wall clock is {} days from the signing epoch (signatures valid -1..+30 days); infra queries for this validation: {}", qname, qtype, class, (wall as i64 - sim::EPOCH_BASE as i64) / 86_400, infra_queries),
+                format!("secure-outside-signature-validity/{}", if wall > eff_expiration(qname) { "expired" } else { "not-yet-valid" }),
+                format!("{} {} ({}): Secure although the wall clock is {} days from the signing epoch (signatures valid -1..+30 days, the one over zone.tld's DS RRset -1..+12 days); infra queries for this validation: {}", qname, qtype, class, (wall as i64 - sim::EPOCH_BASE as i64) / 86_400, infra_queries),
             );
             return;
         }
